@@ -402,6 +402,33 @@ func (g *G) genUpdate(v view) Op {
 	default:
 		fE, fR = fE+1, g.pickRoot(v)
 	}
+	// mixed pairs: one checkpoint ahead, the other older or equal (by epoch), with roots inside and outside the finalized subtree;
+	// an older finalized epoch must be refused whatever its root, leaving everything untouched
+	if r.Chance(16) {
+		cf, cj := uint64(curF.Epoch), uint64(curJ.Epoch)
+		root := func() uint64 {
+			switch {
+			case r.Chance(45):
+				return CounterOf(curF.Root)
+			case r.Chance(60) && len(v.roots) > 0:
+				return v.roots[r.Intn(len(v.roots))]
+			}
+			return 100 + uint64(r.Intn(20))
+		}
+		if r.Chance(65) {
+			// justified ahead (a real checkpoint where there is one), finalized behind or equal
+			if jE <= cj {
+				jE = cj + 1 + uint64(r.Intn(2))
+			}
+			fE, fR = uint64(r.Intn(int(cf)+1)), root()
+		} else {
+			// finalized ahead, justified behind or equal
+			if fE <= cf {
+				fE = cf + 1
+			}
+			jE, jR = uint64(r.Intn(int(cj)+1)), root()
+		}
+	}
 	trig := jR
 	switch {
 	case r.Chance(45):
